@@ -25,12 +25,14 @@ inductive Op (Pt F LP S C : Type)
   | single (ts : List ((LP × S) × C)) (z : Pt)
   | batch (qs : List (Query Pt))
   | combo (lcs : List (LC.LinComb F)) (qs : List (Query Pt))
+  deriving DecidableEq, Repr
 
 /-- what an operation returns: `Proof`, `BatchProof`, `BatchLCProof` -/
 inductive OpProof (F PF : Type)
   | single (π : PF)
   | batch (πs : List PF)
   | combo (πs : List PF) (evals : Option (List F))
+  deriving DecidableEq, Repr
 
 /-- one verifier operation with its claims: `check` (commitments, point, values), `batch_check`
 (queries, evaluations), `check_combinations` (equations, queries, claimed equation values) -/
@@ -38,6 +40,7 @@ inductive VOp (Pt F C : Type)
   | single (cs : List C) (z : Pt) (vs : List F)
   | batch (qs : List (Query Pt)) (evals : List ((Label × Pt) × F))
   | combo (lcs : List (LC.LinComb F)) (qs : List (Query Pt)) (ee : List ((Label × Pt) × F))
+  deriving DecidableEq, Repr
 
 section Prover
 variable (ltP : Pt → Pt → Bool) (lblP : LP → Label) (evalP : LP → Pt → F)
